@@ -111,6 +111,48 @@ func VerifC20_HookUpgradeUninstall() {
 	}
 }
 
+// VerifC20_HookWithUserLines: a hook that consists of a git-lfs template plus
+// user commands before or after it (the quantifier's "user script containing
+// the LFS line") is a user's hook: update reports the conflict and uninstall
+// leaves it, byte for byte.
+func VerifC20_HookWithUserLines() {
+	dir := verifTempDir() + "/hooks"
+	hooks := LoadHooks(dir, nil)
+	h := hooks[verifChoose("hook", verifBound("hook.types", 2, 4))]
+	var tmpl string
+	if verifChoose("template", 2) == 0 {
+		tmpl = h.Contents
+	} else {
+		tmpl = h.upgradeables[verifChoose("historical", len(h.upgradeables))]
+	}
+	user := verifNondetString("user.line")
+	verifAssume(len(user) >= 1 && len(user) <= 24)
+	verifAssumeAlphabet(user, "azAZ09")
+	verifAssumeClass(user, "trimmed")
+	verifAssumeClass(user, "undented")
+	sep := []string{"\n", "\n\n", "\r\n", "\n\t"}[verifChoose("separator", 4)]
+	var content string
+	if verifChoose("user.position", 2) == 0 {
+		content = tmpl + sep + user + "\n"
+	} else {
+		content = user + sep + tmpl + "\n"
+	}
+	path := dir + "/" + h.Type
+	verifFSWrite(path, content, 0755)
+	if verifChoose("operation", 2) == 0 {
+		err := h.Upgrade()
+		after, exists := verifFSRead(path)
+		verifCover("update")
+		verifAssert(exists && after == content, "a template with user lines around it is left byte-identical by update")
+		verifAssert(err != nil, "the conflict is reported")
+		return
+	}
+	h.Uninstall()
+	after, exists := verifFSRead(path)
+	verifCover("uninstall")
+	verifAssert(exists && after == content, "a template with user lines around it survives uninstall")
+}
+
 // VerifC20_HookInstallFresh: with no hook present the current hook is written;
 // installing twice equals installing once.
 func VerifC20_HookInstallFresh() {
